@@ -2,6 +2,7 @@
 structures of configurations for state_dict), worker / driver plumbing, comparison."""
 import copy
 import json
+import os
 
 from . import common, identlib
 from .gen import cfggen
@@ -9,6 +10,8 @@ from .gen import cfggen
 WORKER = "xv.impl.serial_worker"
 DRIVER = "Serial"
 TAGVALS = ["bm25", 1, 0.5, "x y", 3, True]
+DATA_PAIRS = [("/XVDATA/q/model.bin", "/XVDATA/d/model.bin"), ("/XVDATA/q/weights.pt", "/XVDATA/d/weights.pt")]
+DATA_POOL = [f"/XVDATA/f{i}.bin" for i in range(8)] + [p for pair in DATA_PAIRS for p in pair]
 
 
 DUNDERS = ["len", "bool", "eq", "iter", "getattr"]
@@ -41,8 +44,10 @@ def gen_lib(rng, tag, data=True, dunders=None):
         for c in lib["classes"]:
             if c["name"].startswith("C") and rng.random() < 0.35:
                 inherited = {a["name"] for a in cfggen.all_args(lib, c["name"])}
-                if "dp" not in inherited:
+                if "dp" not in inherited and "dp2" not in inherited:
                     c["args"].append({"name": "dp", "decl": "data", "ty": "path", "optional": False})
+                    if rng.random() < 0.5:      # two data files held by ONE configuration
+                        c["args"].append({"name": "dp2", "decl": "data", "ty": "path", "optional": False})
     return lib
 
 
@@ -73,7 +78,12 @@ def gen_graph(rng, lib, max_nodes=8, cycles=True, task_links=True, tags=True):
     g = cfggen.gen_graph(rng, lib, max_nodes=max_nodes, cycles=cycles)
     for nd in g["nodes"]:
         data = {a["name"] for a in cfggen.all_args(lib, nd["cls"]) if a["decl"] == "data"}
-        nd["values"] = [[k, ({"p": f"/XVDATA/f{rng.randrange(8)}.bin"} if k in data else type_keys(rng, v))] for k, v in nd["values"]]
+        # data files: often two files with the same base name in different directories (different contents)
+        pair = rng.choice(DATA_PAIRS) if len(data) > 1 and rng.random() < 0.6 else None
+        if pair and rng.random() < 0.5:
+            pair = pair[::-1]
+        pool = iter(pair or ())
+        nd["values"] = [[k, ({"p": next(pool, None) or rng.choice(DATA_POOL)} if k in data else type_keys(rng, v))] for k, v in nd["values"]]
         if not task_links:
             nd["task"] = None
         if tags and rng.random() < 0.25:
@@ -140,6 +150,8 @@ def gen_value(rng, g):
 def graph_stats(lib, g):
     st = identlib.graph_stats(g)
     st["data"] = sum(1 for nd in g["nodes"] for k, v in nd["values"] if isinstance(v, dict) and str(v.get("p", "")).startswith("/XVDATA"))
+    st["data2"] = sum(1 for nd in g["nodes"] if len({os.path.basename(v["p"]) for k, v in nd["values"] if isinstance(v, dict) and str(v.get("p", "")).startswith("/XVDATA")})
+                      < sum(1 for k, v in nd["values"] if isinstance(v, dict) and str(v.get("p", "")).startswith("/XVDATA")))
     st["meta_false"] = sum(1 for nd in g["nodes"] if nd["meta"] is False)
     st["paths"] = sum(1 for nd in g["nodes"] for k, v in nd["values"] if isinstance(v, dict) and "p" in v)
     st["tags"] = sum(len(nd.get("tags", [])) for nd in g["nodes"])
@@ -295,7 +307,7 @@ def install_local_findings(prop):
 
 
 def feature_key(st):
-    return "+".join(k for k in ("files", "dunder", "meta", "pre", "prerepeat", "init", "taskout", "data", "paths", "tags", "typekey", "cyclic") if st.get(k)) or "plain"
+    return "+".join(k for k in ("files", "dunder", "meta", "pre", "prerepeat", "init", "taskout", "data", "data2", "paths", "tags", "typekey", "cyclic") if st.get(k)) or "plain"
 
 
 def make_cases(ctx, rng, kind, nlibs, per, tag):
